@@ -1,8 +1,456 @@
-// Package c14: stub (property not built yet).
+// Package c14: concurrent clients on real stores and on the indexer; every recorded history is checked
+// for linearizability against the reference map (porcupine), its linearisation is replayed by the Lean
+// driver, and the same programs run under the race detector in a child process.
 package c14
 
-import "verifharness/hk"
+import (
+	"encoding/json"
+	"flag"
+	"fmt"
+	"os"
+	"path/filepath"
+	"sort"
+	"strings"
+	"time"
 
-func NewExec() func(w []string) string { return func([]string) string { return "bad-op" } }
+	"github.com/anishathalye/porcupine"
 
-func Run(r *hk.Run) { r.Note("not built yet") }
+	"perkeep.org/pkg/blob"
+
+	"verifharness/hk"
+)
+
+// ---- batches -------------------------------------------------------------------------------------------
+
+// batch lists the programs of one run. which: "inproc" (this process) or "race" (the -race child).
+func batch(seed uint64, tier, which string) []program {
+	r := hk.NewRand(seed*1000003 + map[string]uint64{"inproc": 17, "race": 91}[which])
+	thorough := tier == "thorough"
+	per := map[string]int{"inproc": 10, "race": 5}[which]
+	if thorough {
+		per = map[string]int{"inproc": 90, "race": 40}[which]
+	}
+	var ps []program
+	for round := 0; round < per; round++ {
+		for _, k := range StoreKinds {
+			p := genProgram(r.Fork(), k, thorough)
+			if k == "diskpacked" && round%3 == 0 {
+				p.Max = 1 // every receive rolls the pack over: fds grows under concurrent fetches
+			}
+			ps = append(ps, p)
+		}
+		ps = append(ps, genIxProgram(r.Fork(), fmt.Sprintf("%d-%s-%d", seed, which, round), thorough))
+	}
+	return ps
+}
+
+func run1(p program, race bool) (*history, error) {
+	if p.Kind == "index" {
+		return runIxProgram(p, race)
+	}
+	return runProgram(p, race)
+}
+
+// ---- the -race child -----------------------------------------------------------------------------------
+
+func IsChild() bool {
+	for _, a := range os.Args[1:] {
+		if a == "-c14child" {
+			return true
+		}
+	}
+	return false
+}
+
+// ChildMain runs the "race" batch and writes one JSON history per line.
+func ChildMain() {
+	fs := flag.NewFlagSet("c14child", flag.ExitOnError)
+	fs.Bool("c14child", true, "")
+	seed := fs.Uint64("seed", 1, "")
+	tier := fs.String("tier", "quick", "")
+	out := fs.String("out", "", "")
+	budget := fs.Int("budget", 60, "seconds")
+	fs.Parse(os.Args[1:])
+	f, err := os.Create(*out)
+	if err != nil {
+		fmt.Fprintln(os.Stderr, err)
+		os.Exit(2)
+	}
+	defer f.Close()
+	ystate.Store(*seed * 77)
+	t0 := time.Now()
+	enc := json.NewEncoder(f)
+	for _, p := range batch(*seed, *tier, "race") {
+		if time.Since(t0) > time.Duration(*budget)*time.Second {
+			break
+		}
+		h, err := run1(p, true)
+		if err != nil {
+			fmt.Fprintln(os.Stderr, "c14child: cannot build store:", err)
+			continue
+		}
+		enc.Encode(h)
+	}
+}
+
+// ---- the parent ----------------------------------------------------------------------------------------
+
+func histText(h *history, w *world, max int) string {
+	var b strings.Builder
+	fmt.Fprintf(&b, "%s clients=%d; ", h.Cfg, h.Clients)
+	for i, rc := range append(append([]rec(nil), h.Recs...), h.Final...) {
+		if i >= max {
+			b.WriteString("…")
+			break
+		}
+		o := rc.Out
+		if len(o) > 70 {
+			o = o[:70] + "…"
+		}
+		line := w.opLine(rc.In)
+		if len(line) > 90 {
+			line = line[:90] + "…"
+		}
+		fmt.Fprintf(&b, "[c%d %d-%d %s -> %s] ", rc.Client, rc.Call, rc.Ret, line, o)
+	}
+	return b.String()
+}
+
+// conflicts classifies the real-time overlaps of a history: pairs of overlapping calls on the same
+// blob (or an enumerate with anything that writes) of which at least one writes.
+func conflicts(h *history) map[string]int {
+	m := map[string]int{}
+	isW := func(k string) bool { return k == "recv" || k == "rm" || k == "irecv" }
+	for i, a := range h.Recs {
+		for _, b := range h.Recs[i+1:] {
+			if b.Call > a.Ret {
+				break // sorted by Call
+			}
+			if a.Client == b.Client || !(isW(a.In.Kind) || isW(b.In.Kind)) {
+				continue
+			}
+			global := func(k string) bool { return k == "enum" || k == "claims" || k == "query" }
+			if a.In.K != b.In.K && !global(a.In.Kind) && !global(b.In.Kind) {
+				continue
+			}
+			x, y := a.In.Kind, b.In.Kind
+			if x > y {
+				x, y = y, x
+			}
+			m[x+"||"+y]++
+		}
+	}
+	return m
+}
+
+type tally struct {
+	histories, linearizable, illegal, unknown, ops, raceHist int
+}
+
+// checkHistory is the property's oracle on one recorded history.
+func checkHistory(r *hk.Run, h *history, t *tally) {
+	w := newWorld(h.Pool)
+	t.histories++
+	src := "inproc"
+	if h.Race {
+		src = "race"
+		t.raceHist++
+	}
+	r.Hit("hist:" + h.Kind + ":" + src)
+	for _, x := range h.Hits {
+		r.Hit(x)
+	}
+	if h.Hung {
+		r.ImplOnly("history-hung")
+		r.Fail("call-hung:"+h.Kind, "a call did not return within 20 s (deadlock?): "+histText(h, w, 60), "every call returns", "hang", nil)
+		return
+	}
+	all := append(append([]rec(nil), h.Recs...), h.Final...)
+	t.ops += len(all)
+	cf := conflicts(h)
+	ckeys := hk.SortedKeys(cf)
+	for _, k := range ckeys {
+		r.Hit("overlap:" + k)
+	}
+	if len(cf) > 0 {
+		r.Distinct(fmt.Sprintf("%s/c%d/%s", h.Kind, h.Clients, strings.Join(ckeys, ",")))
+		if h.Kind == "index" {
+			if cf["irecv||irecv"] > 0 {
+				r.Hit("mech:index-pending-blob-coordination(same blob received concurrently)")
+			}
+			if cf["claims||irecv"] > 0 || cf["irecv||meta"] > 0 || cf["irecv||query"] > 0 {
+				r.Hit("mech:queries-hold-index-read-lock(query overlapping a receive)")
+			}
+		} else {
+			r.Hit("mech:per-store-mutex:" + h.Kind)
+		}
+	}
+	// panics / unexpected error classes are visible as outputs that no sequential run produces
+	v := w.check(all, 20*time.Second)
+	switch v.res {
+	case porcupine.Ok:
+		t.linearizable++
+		r.Case(fmt.Sprintf("%s %s clients=%d ops=%d yields=%d", src, h.Cfg, h.Clients, len(all), h.Yields))
+		r.Op("store "+h.Kind, "ok")
+		for _, i := range v.order {
+			r.Op(w.opLine(all[i].In), all[i].Out)
+		}
+		if len(v.order) != len(all) {
+			r.Fail("harness:linearisation-incomplete", fmt.Sprintf("%d of %d ops", len(v.order), len(all)), "", "", nil)
+		}
+		if len(cf) > 0 {
+			r.Sample(map[string]any{"store": h.Cfg, "clients": h.Clients, "ops": len(all), "overlaps": cf, "source": src})
+		}
+	case porcupine.Illegal:
+		t.illegal++
+		r.ImplOnly("history-not-linearizable")
+		var ops []string
+		ops = append(ops, "store "+h.Kind)
+		for _, rc := range all {
+			ops = append(ops, w.opLine(rc.In))
+		}
+		r.Fail("nonlin:"+h.Kind+":"+v.class,
+			"history is not linearizable against the reference map ("+v.class+"): "+histText(h, w, 140),
+			"some order of the calls that respects real time and answers like RefMap", "none exists (porcupine)", ops)
+	default:
+		t.unknown++
+		r.ImplOnly("history-check-timeout")
+		r.Hit("porcupine:timeout")
+	}
+	// all acknowledged, unremoved blobs are present afterwards
+	if h.Kind != "index" {
+		acked, removed := map[int]bool{}, map[int]bool{}
+		for _, rc := range h.Recs {
+			if rc.In.Kind == "recv" && strings.HasPrefix(rc.Out, "sized") {
+				acked[rc.In.K] = true
+			}
+			if rc.In.Kind == "rm" {
+				removed[rc.In.K] = true
+			}
+		}
+		enumOut := ""
+		fin := map[string]string{}
+		for _, rc := range h.Final {
+			if rc.In.Kind == "enum" {
+				enumOut = rc.Out
+			} else {
+				fin[fmt.Sprintf("%s%d", rc.In.Kind, rc.In.K)] = rc.Out
+			}
+		}
+		for i := range h.Pool {
+			if !acked[i] || removed[i] {
+				continue
+			}
+			r.Hit("acked-survive:checked")
+			want := fmt.Sprintf("sized %d", len(h.Pool[i].Val))
+			okEnum := strings.Contains(enumOut+" ", " "+keyHex(h.Pool[i].Ref)+fmt.Sprintf(":%d ", len(h.Pool[i].Val)))
+			if fin[fmt.Sprintf("stat%d", i)] != want || fin[fmt.Sprintf("fetch%d", i)] != "bytes "+hk.Hex(h.Pool[i].Val) || !okEnum {
+				r.Fail("acked-blob-lost:"+h.Kind, fmt.Sprintf("blob %s was acknowledged and never removed, but the final state is stat=%s fetch=%s enumerated=%v; %s",
+					h.Pool[i].Ref, fin[fmt.Sprintf("stat%d", i)], fin[fmt.Sprintf("fetch%d", i)], okEnum, histText(h, w, 100)),
+					"present", "absent or damaged", nil)
+			}
+		}
+	} else {
+		acked := map[int]bool{}
+		for _, rc := range h.Recs {
+			if rc.In.Kind == "irecv" && strings.HasPrefix(rc.Out, "sized") {
+				acked[rc.In.K] = true
+			}
+		}
+		for _, rc := range h.Final {
+			if rc.In.Kind == "meta" && acked[rc.In.K] {
+				r.Hit("acked-survive:checked")
+				if rc.Out != fmt.Sprintf("sized %d", len(h.Pool[rc.In.K].Val)) {
+					r.Fail("acked-blob-lost:index", fmt.Sprintf("schema blob %s was acknowledged by Index.ReceiveBlob but has no meta afterwards (%s)", h.Pool[rc.In.K].Ref, rc.Out), "indexed", rc.Out, nil)
+				}
+			}
+		}
+	}
+}
+
+func Run(r *hk.Run) {
+	r.Res.Rule = "a history counts when at least two calls of different clients overlapped in real time on the same blob (or with an enumerate/claims query) and one of them writes; key = store kind / #clients / set of overlapping call-kind pairs"
+	ystate.Store(r.Res.Seed*1315423911 + 7)
+	var t tally
+	budget := 45 * time.Second
+	raceBudget := 50 * time.Second
+	if r.Thorough() {
+		budget, raceBudget = 6*time.Minute, 6*time.Minute
+	}
+
+	// the -race binary is built while the in-process batch runs
+	type built struct{ bin, note string; err error }
+	bc := make(chan built, 1)
+	go func() { b, n, e := buildRaceBinary(); bc <- built{b, n, e} }()
+
+	t0 := time.Now()
+	skipped := 0
+	for _, p := range batch(r.Res.Seed, r.Tier, "inproc") {
+		if time.Since(t0) > budget {
+			skipped++
+			continue
+		}
+		h, err := run1(p, false)
+		if err != nil {
+			r.Fail("harness:cannot-build-store", err.Error(), "", "", nil)
+			continue
+		}
+		checkHistory(r, h, &t)
+	}
+	if skipped > 0 {
+		r.Note(fmt.Sprintf("in-process batch: %d programs skipped (time budget %v)", skipped, budget))
+	}
+	inprocWall := time.Since(t0)
+
+	b := <-bc
+	seen := map[string]int{}
+	if b.err != nil {
+		r.Fail("race-binary-build-failed", "go build -race -tags verif ./cmd/pkh-c14: "+b.err.Error()+"\n"+b.note, "builds", "does not build", nil)
+	} else {
+		cr := runRaceChild(b.bin, r.Res.Seed, r.Tier, raceBudget)
+		for _, h := range cr.Histories {
+			checkHistory(r, h, &t)
+		}
+		for _, rr := range cr.Races {
+			seen[rr.Sig]++
+			r.ImplOnly("race-report")
+			r.Fail(rr.Sig, "the race detector reported a data race between "+rr.Funcs[0]+" and "+rr.Funcs[1]+":\n"+rr.Text, "no data race", "WARNING: DATA RACE", nil)
+		}
+		if cr.Crash != "" {
+			r.Fail("race-child-crashed", cr.Crash, "the child runs to completion", "crash", nil)
+		}
+		if len(cr.Histories) == 0 {
+			r.Fail("race-child-no-histories", "the -race child produced no history: "+cr.Crash, "", "", nil)
+		}
+		r.Note(fmt.Sprintf("%s; -race child: %d histories, %d race reports (%d distinct), %.1fs", b.note, len(cr.Histories), len(cr.Races), len(seen), cr.Wall.Seconds()))
+		r.Hit("race-detector:histories-run-under-race")
+	}
+
+	// witnesses of the findings of this property
+	r.Probe("F-C14-1", seen[sigFds] > 0, fmt.Sprintf("race reports with signature %s in this run: %d", sigFds, seen[sigFds]))
+	r.Probe("F-C14-2", seen[sigDelClaim] > 0, fmt.Sprintf("race reports with signature %s in this run: %d", sigDelClaim, seen[sigDelClaim]))
+	dead, detail := probeNestedRLock()
+	r.Probe("F-C14-3", dead, detail)
+	if dead {
+		r.Hit("nested-rlock:deadlock-reproduced")
+	}
+
+	r.Note(fmt.Sprintf("histories=%d (under -race: %d) linearizable=%d not-linearizable=%d undecided=%d calls=%d; in-process batch %.1fs",
+		t.histories, t.raceHist, t.linearizable, t.illegal, t.unknown, t.ops, inprocWall.Seconds()))
+}
+
+const (
+	sigFds      = "race:diskpacked.(*storage).fetch|diskpacked.(*storage).openForRead"
+	sigDelClaim = "race:index.(*Corpus).GetBlobMeta|index.(*Corpus).mergeMetaRow"
+)
+
+// ---- sequential interpreter (replay) --------------------------------------------------------------------
+
+// NewExec executes the line protocol sequentially on a real store (./check --replay).
+func NewExec() func(w []string) string {
+	var s *sut
+	var ixw *ixWorld
+	sizes := map[string]int{}
+	return func(ws []string) string {
+		if len(ws) == 0 {
+			return "bad-op"
+		}
+		key := func(i int) (string, bool) {
+			if len(ws) <= i {
+				return "", false
+			}
+			b, ok := hk.UnHex(ws[i])
+			if !ok {
+				return "", false
+			}
+			_, ok = blob.Parse(string(b))
+			return string(b), ok
+		}
+		if ws[0] == "store" && len(ws) == 2 {
+			if s != nil {
+				s.Close()
+				s = nil
+			}
+			if ixw != nil {
+				ixw.Close()
+				ixw = nil
+			}
+			if ws[1] == "index" {
+				ixw = newIxWorld()
+				return "ok"
+			}
+			var err error
+			s, err = buildStore(ws[1], 300)
+			if err != nil {
+				return "bad-op"
+			}
+			return "ok"
+		}
+		if s == nil && ixw == nil {
+			return "bad-op"
+		}
+		pool1 := func(ref string, val []byte) ([]poolBlob, []blob.Ref) {
+			return []poolBlob{{Ref: ref, Val: val}}, []blob.Ref{blob.MustParse(ref)}
+		}
+		switch ws[0] {
+		case "recv", "irecv":
+			k, ok := key(1)
+			if !ok || len(ws) != 3 {
+				return "bad-op"
+			}
+			v, ok := hk.UnHex(ws[2])
+			if !ok {
+				return "bad-op"
+			}
+			sizes[k] = len(v)
+			p, rf := pool1(k, v)
+			if ws[0] == "irecv" {
+				if ixw == nil {
+					return "bad-op"
+				}
+				return ixw.exec(p, opIn{Kind: "irecv", K: 0})
+			}
+			if s == nil {
+				return "bad-op"
+			}
+			return execStoreOp(s.sto, p, rf, opIn{Kind: "recv", K: 0})
+		case "fetch", "stat", "rm":
+			k, ok := key(1)
+			if !ok || len(ws) != 2 || s == nil {
+				return "bad-op"
+			}
+			p, rf := pool1(k, nil)
+			return execStoreOp(s.sto, p, rf, opIn{Kind: ws[0], K: 0})
+		case "enum":
+			if len(ws) != 3 || s == nil {
+				return "bad-op"
+			}
+			a, ok := hk.UnHex(ws[1])
+			var n int
+			if _, err := fmt.Sscanf(ws[2], "%d", &n); err != nil || !ok {
+				return "bad-op"
+			}
+			return execStoreOp(s.sto, nil, nil, opIn{Kind: "enum", After: string(a), Limit: n})
+		case "meta", "claims":
+			k, ok := key(1)
+			if !ok || len(ws) != 2 || ixw == nil {
+				return "bad-op"
+			}
+			var pool []poolBlob
+			pool = append(pool, poolBlob{Ref: k})
+			for ref, n := range sizes {
+				pool = append(pool, poolBlob{Ref: ref, Val: make([]byte, n)})
+			}
+			sort.Slice(pool[1:], func(i, j int) bool { return pool[1+i].Ref < pool[1+j].Ref })
+			return ixw.exec(pool, opIn{Kind: ws[0], K: 0})
+		case "query":
+			if ixw == nil || len(ws) != 1 {
+				return "bad-op"
+			}
+			return ixw.exec(nil, opIn{Kind: "query"})
+		}
+		return "bad-op"
+	}
+}
+
+var _ = filepath.Join
